@@ -332,8 +332,15 @@ def flux_bindown(ix, R):
             not whyc, key='; '.join(whyc), detail='; '.join(whyc),
             loc=f.loc(conts[0].node) if conts else f.loc())
     # loop over every target bin
-    R.check('2.loop', 'SHAPE', site, 'one iteration per target bin over (centre, lower edge, upper edge)',
-            lp.kind == 'enumerate' and len(lp.iter_ast.args[0].args) == 3, key=unparse(lp.iter_ast),
+    def _per_target(q):
+        # a sequence with one entry per target bin: the target grid, its width, or an edge array built from both
+        ats = {tab.fmt_atom(a) for a in q.atoms()}
+        return bool(ats) and ats <= {'self._wngrid', 'self._wngrid_width'}
+    okloop = (lp.kind == 'enumerate' and all(_per_target(q) for q in _zipped(fl, lp))) or \
+        (lp.kind == 'range' and lp.range_args[0].const() == 0 and lp.range_args[2].const() == 1 and any(
+            tab.equal(lp.range_args[1], spec(fl, x)) for x in ('len(self._wngrid)', 'self._wngrid.shape[0]')))
+    R.check('2.loop', 'SHAPE', site, 'one iteration per target bin (the loop enumerates sequences built from the target grid and widths)',
+            okloop, key=unparse(lp.iter_ast),
             detail='loop is %s' % unparse(lp.iter_ast), loc=f.loc(lp.node))
     # return roles
     r = the_return(fl)
@@ -349,6 +356,15 @@ def flux_bindown(ix, R):
     R.check('4.roles.flux', 'SIB', site, 'bindown returns (grid, spectrum, error, width)', okr,
             key='returns %s' % unparse(r.value_ast), detail='returns %s' % unparse(r.value_ast),
             loc=f.loc(r.node))
+
+
+def _zipped(fl, lp):
+    """the sequences an enumerate(...) / enumerate(zip(...)) loop walks"""
+    q = lp.iter_rf[0]
+    a = atom_of(fl, q)
+    if a is not None and a.head == 'call' and a.extra[0] == 'fn:zip':
+        return list(a.args)
+    return [q]
 
 
 def atom_base(fl, target):
